@@ -126,9 +126,13 @@ class TxnCoordinatorModel:
             for p in t["partitions"]:
                 if top is None or p >= len(top.partitions):
                     bad[(t["name"], p)] = UNKNOWN_TOPIC_OR_PARTITION
-                elif not top.authorized:
+                elif not top.authorized or not top.writable:
                     bad[(t["name"], p)] = TOPIC_AUTHORIZATION_FAILED
         if bad:
+            if TOPIC_AUTHORIZATION_FAILED in bad.values():
+                # an error reply the application can only answer by aborting: engines that
+                # track "the error reply reached the producer" treat it like an injected one
+                req.injected_error = True
             reply(lambda t, p: bad.get((t, p), OPERATION_NOT_ATTEMPTED))
             return
         if txn.state != "Ongoing":
